@@ -24,12 +24,18 @@ CHECKS = {
  "C11": dict(cat="exploration", tech="exhaustive enumeration of definition subsets x names x reference sites x targets, product equivalence against the reference + script text observation",
    text="All 3x16 definition sets (plain none/command/expression x every subset of the four @shell definitions) for X, PATH, DIRECTORY at 6 reference sites and 4 targets are compiled; the automaton must equal the reference (which encodes the R1 choice order), the emitted script must contain exactly the chosen probe text, and removing other-shell definitions must not change a byte.",
    note="trusted: reference semantics R1; built-in completer texts copied into the harness", ref="4/C11"),
+ "C12": dict(cat="model_checking", tech="exhaustive prefix-lattice value sets; model BFS + trace replay in real bash",
+   text="Every value set of bounded size from a prefix lattice (with at least one prefix pair) is placed inside a word in several forms; the reference model (all tokenisations) is explored and every trace - each fully typed value followed by the next word, each prefix of each value, non-values - is replayed in real bash.",
+   note="trusted: as C01; a value typed completely may or may not be offered again (tolerance)", ref="4/C12"),
  "C13": dict(cat="fault_enumeration", tech="exhaustive placement product (preceding lines x same-statement prefix x separator) per diagnostic kind, planted byte offset vs reported span; binary stderr replay",
    text="For 13 located diagnostic kinds the planted token's true line/column (known because the harness writes the text) is compared with the span the library returns for every placement of the slot product, and with the `path:L:C:` prefixes, print order and source snippet lines of the real binary's stderr on a covering subset (thorough: all).",
    note="trusted: byte-column convention; chic's `N | source` snippet layout parsed by the harness", ref="4/C13"),
  "C15": dict(cat="exploration", tech="exhaustive enumeration of reference structures (definition statuses x reference subsets) against a reachability oracle",
    text="All 6^3 status vectors of three definable names x all subsets of call-variant references x all acyclic body reference subsets x 4 targets: the three warning sets must equal the reachability oracle, every warning span must cover the offending name token, and deleting everything warned about must not change the script bytes or the verdict.",
    note="trusted: reachability oracle r8::warnings; Level L observes ValidGrammar's maps after main.rs's `_` exemption", ref="4/C15"),
+ "C17": dict(cat="model_checking", tech="model BFS + bash trace replay with logging probe commands (call multiset vs model)",
+   text="Every external command of the enumerated grammars is a probe that logs its identity and arguments and prints fixed lines (incl. candidates with blanks and TAB descriptions). For every model trace replayed in bash, COMPREPLY must follow R7 and the probe log must contain exactly the completion-phase calls the model expects (with the documented $1/$2) plus only matching-phase calls expected at the state of an earlier word.",
+   note="trusted: as C01; log order is not used", ref="4/C17"),
  "C05": dict(cat="exploration", tech="exhaustive bounded enumeration of trees, strings and layout deviations (print/parse round trip)",
    text="Every tree up to the node bound, every literal/description string up to the length bound and every single/double layout deviation is printed by the harness printer and parsed by Grammar::parse; the parsed tree must equal the printed one. Exhaustive within the stated bounds.",
    note="trusted: the harness printer's precedence ladder and escaper (validated by this very check: a printer bug shows up as a mismatch)", ref="4/C05"),
